@@ -161,6 +161,11 @@ func VH_C20_single() {
 	m := &c20Mon{}
 	m.setup()
 	var n Node = &c20Node{BaseNode: NewBaseNode(WithMaxRetries(m.budget), WithWait(m.w)), m: m}
+	if vNondet[bool]("waitSetBeforeBudget") {
+		// the two settings are independent: the order in which they are given does not matter
+		vCover("wait-set-before-budget")
+		n = &c20Node{BaseNode: NewBaseNode(WithWait(m.w), WithMaxRetries(m.budget)), m: m}
+	}
 	if vNondet[bool]("settingsFromOverriddenGetters") {
 		// the retry settings are what the node's GetMaxRetries / GetWait report: a node type that
 		// embeds the base node and overrides GetWait (a computed back-off) is waited for accordingly
@@ -185,7 +190,14 @@ func VH_C20_batchItem() {
 	if conc > 0 {
 		vCover("pooled")
 	}
-	b := NewBatchNode().WithMaxRetries(m.budget).WithWait(m.w).WithBatchConcurrency(conc).
+	b := NewBatchNode()
+	if vNondet[bool]("waitSetBeforeBudget") {
+		vCover("wait-set-before-budget")
+		b = b.WithWait(m.w).WithBatchConcurrency(conc).WithMaxRetries(m.budget)
+	} else {
+		b = b.WithMaxRetries(m.budget).WithWait(m.w).WithBatchConcurrency(conc)
+	}
+	b = b.
 		WithPrepFunc(func(ctx context.Context, s *SharedStore) ([]Result, error) {
 			vMon(func() { m.prepAt = vNow() })
 			return []Result{NewResult(1)}, nil
